@@ -17,7 +17,7 @@ PROPS = {
         "explanation": "CONV: for every scalar converter behind mpt_data_converter() and the numeral back ends, every case of the type switch is "
                        "analysed with the interval engine in query mode (dest==NULL) and store mode; obligations O1-O6 (reported size, single in-range "
                        "store of the right width, no null dereference, ctype table domain, no store on error, same verdict in both modes). "
-                       "ERANGE: every strto*() result reaches a success return only through a test of errno.",
+                       "ERANGE: every strto*() result reaches a success return only through a test of errno. CONVBOTH: a function with an optional destination that delegates to a converter runs the converter also when the destination is null (trace partition on its null test).",
         "not_decided": "library semantics of strtoumax('-1'), consumed-length arithmetic",
         "assumptions": ["C/POSIX locale single-byte ctype classes are ASCII", "two's complement, widths from clang TargetInfo for x86_64"],
         "technique": "interval abstract interpretation with guard refinement over the clang CFG, per switch case and destination mode",
@@ -40,7 +40,7 @@ PROPS = {
                        "pairs must agree; kind ranges of enum Types disjoint/ordered; interface table slot i holds id base+i; mpt_type_traits() is "
                        "abstractly evaluated for every id with a row and must reach the table that row lives in. REGRANGE: interval analysis of the four "
                        "registration functions: every id returned/stored lies in [Base,Max] of its kind; capacity constants equal Max-Base+1. "
-                       "MEMCPYSIZE: memcpy(dst,&obj,sizeof X) copies the whole object. LAZYORDER: table scans (duplicate-name checks, lookups) run only after the lazy-initialisation test of that table.",
+                       "MEMCPYSIZE: memcpy(dst,&obj,sizeof X) copies the whole object. LAZYORDER: table scans (duplicate-name checks, lookups) run only after the lazy-initialisation test of that table. COUNTFAIL: no path from a raise of a registry entry counter (`->used++`, static counts) reaches a `return <negative constant>`: a refused registration leaves the registry as it was.",
         "not_decided": "uniqueness/stability over registration histories (append-only shape not yet checked), name lookup results, duplicate-name refusal polarity",
         "assumptions": ["x86_64 type widths from clang TargetInfo"],
         "technique": "constant-table extraction from the folded AST + sibling agreement; interval analysis of id-producing sites; abstract evaluation of the id dispatch",
@@ -62,7 +62,7 @@ PROPS = {
                        "tail-inline wrappers of a registered regular pair; the encoder's block limit (`++code == E`) and zero-pair parameters (offset, code range) "
                        "are checked against the decoder's code->(data bytes, zero bytes) table, obtained by abstractly evaluating the decoder's two length "
                        "formulas for every code 1..255; every named framing is handled; the python client's block limit equals the C one and each branch "
-                       "that restarts a block appends the next code byte.",
+                       "that restarts a block appends the next code byte. CODECPAIR also checks that the byte a tail-inline wrapper moves into the code position lies in the block-code range 1..E of the wrapped codec (interval at the store), and that the decoder reads every code above E as the format says.",
         "not_decided": "encode/decode identity for every message, split and capacity schedule; 'no zero byte inside a frame'; byte-level bounds of the encoders "
                        "(relational over off/code/left); python encoder beyond the two structural facts",
         "assumptions": [],
@@ -86,7 +86,7 @@ PROPS = {
                        "row indices in special cases refer to a row whose setter writes the field the special case reads. CONVDEST: every convert(src, K, &field) with "
                        "constant K targets an object of the C type registered for K. ERRFX: interval analysis with trace partitioning on store sites: no setter path "
                        "stores into the object and then returns an error (unless a later call decides the failure). DEEPCOPY: pointers freed by *_fini are re-duplicated "
-                       "after the whole-struct copy in *_init. ERRPROP: no status variable receives a comparison result.",
+                       "after the whole-struct copy in *_init. ERRPROP: no status variable receives a comparison result. NARROWEDGE: a range test in front of a store into a narrower member does not stop exactly one short of the member's range. DEEPCOPY is path-sensitive: after the whole-struct copy every owned string is duplicated or tested null on every path to the return.",
         "not_decided": "value equality of set/get for every accepted value, colour print/parse round trip, unique-prefix matching behaviour, defaults after reset",
         "assumptions": ["'c' conversions only yield printable ASCII, so a 1 byte integer field of either signedness holds them"],
         "technique": "static table extraction (initialisers, offset expressions) + setter branch/field correspondence + interval analysis with trace partitioning for refusal paths",
@@ -140,7 +140,7 @@ PROPS = {
                        "(mpt_message_buf2id and every int function with scalar results in the anchor files). IDWIDTH: the per-width maximum in mpt_command_reserve equals "
                        "2^(8w-1)-1 and the id writer tests the reply marker bit. CONVTYPE: every convert() implementation in the anchor files that answers `type == K` stores a "
                        "pointer to the record type (or a record starting with it) that the consumers of K in the whole program declare. LENCLEARED: in reply senders every "
-                       "path from an accepted transport call to the return clears the armed id length. UNINITCTX: context aggregates passed with a callback are initialised first.",
+                       "path from an accepted transport call to the return clears the armed id length. UNINITCTX: context aggregates passed with a callback are initialised first. IDCAP: mpt_message_buf2id() refuses a header only when the count of significant bytes exceeds sizeof(*iptr) (interval of that count at the error return).",
         "not_decided": "at-most-once over arm/reply/defer/release histories with a failing transport; the reader side mpt_message_buf2id beyond its result-parameter discipline",
         "assumptions": [],
         "technique": "interprocedural out-parameter summaries (trace-partitioned intervals), table check, provider/consumer pointer-type agreement, typestate on the send/clear pair",
@@ -167,7 +167,7 @@ PROPS = {
                        "first loop iterations are analysed on their own (peeling), unsigned counters that may have wrapped are resolved by the test they sit in. Accesses whose bound is lost at a loop join are listed as undecided.",
         "not_decided": "equality with the flat computation (positions, counts, copied bytes) for every way of cutting the data",
         "assumptions": [],
-        "technique": "interval analysis at cursor advances + dominator/pairing checks + syntactic loop variants",
+        "technique": "relational abstract interpretation (linear constraints, fragment lists as arrays of records, loop peeling) + interval analysis at cursor advances + dominator/pairing checks + syntactic loop variants",
         "level_text": "Decides that the fragment cursor never leaves the fragment list and every loop terminates on its own exit test, for all 10 message files; not the value equivalence.",
         "level_note": "companion count inferred from struct message fields (cont/clen), locals loaded from them, or the integer parameter following an iovec parameter",
         "rules": [
@@ -209,7 +209,7 @@ PROPS = {
                        "STALE: a buffer pointer loaded from the handle is not used after a call that may replace the handle's buffer. NULLCONTRA: trace partitioning on the "
                        "function's own null tests - no dereference on a path class where the pointer is known null. OBJSIZE: copy calls do not read past a source of known size; "
                        "literal zero lengths with a real source are dead copies. STATUSPOLARITY, LAZYINIT, BOUNDSTALE: status/lazy-init/loop-bound idioms. ERRFX on the buffer and "
-                       "array primitives: no store into the object on a path that then refuses.",
+                       "array primitives: no store into the object on a path that then refuses. COWGUARD also covers what a private-making function returns: the buffer mpt_array_reserve() hands to a writing caller is fresh or tested not shared / not immutable on that path. LINBUF additionally owes FINIIN/FINICOVER for the element finalizer calls (see C05).",
         "not_decided": "equality with a value-semantics vector after arbitrary histories (contents, zero fill, exact lengths); element walks that multiply by a run-time element size (init/fini loops); the C++ container templates beyond NULLCONTRA/OBJSIZE",
         "assumptions": ["type_traits.size is non-zero for registered traits (DIVZERO is not armed on element-size divisions)"],
         "technique": "relational abstract interpretation (LINBUF: linear constraints, payload regions, inductive buffer invariant, allocation/detach contracts checked on their implementations); CFG typestate with trace partitioning (copy-on-write discipline), staleness after may-reallocate calls, null-test partitioning, copy-size intervals",
@@ -237,10 +237,10 @@ PROPS = {
                        "continuation, restore of the same field, function-local holder handed only to mpt_node_clear, next-of-first-child on unlink, link primitive using V->parent). "
                        "MOVECLEAR: a list taken from another node's children is given up by that node. UAF: trace partitioning on released pointers (free / mpt_node_destroy / unref): "
                        "no access or hand-off after release. ALLOCPOLARITY: for x = g() with g null-on-failure, returns reached with x known non-null are not all failures while "
-                       "success is reachable with x null. NODEGUARD: free(node) in mpt_node_destroy is dominated by the three link tests; mpt_node_clear resets the links before destroy.",
+                       "success is reachable with x null. NODEGUARD: free(node) in mpt_node_destroy is dominated by the three link tests; mpt_node_clear resets the links before destroy. LINNODE NOREF: a node the function cut loose (parent, next, prev null at return) is no longer the child/next/prev of any node the function looked at (equalities learnt from pointer comparisons are applied to the member that was compared). CHILDLIST: where a built sibling list becomes `A->children`, a loop over its next chain sets `->parent = A`.",
         "not_decided": "global shape invariants (acyclicity, single reachability) over operation histories; equality of a clone with its source",
         "assumptions": [],
-        "technique": "enumerated-idiom check over every children store + CFG reachability/dominators + trace-partitioned typestate (released pointers, null outcomes)",
+        "technique": "enumerated-idiom check over every children store + CFG reachability/dominators + trace-partitioned typestate (released pointers, null outcomes) + relational abstract interpretation over symbolic node objects (link pairing, no reference to a detached node)",
         "level_text": "Decides the link-pairing clauses (every child names its parent after each attach; moved lists have one owner; destroy/clear guards) for every site in the build.",
         "level_note": "idiom list frozen from today's 21 sites, one reason each; anything else is reported",
         "rules": [
@@ -257,10 +257,10 @@ PROPS = {
                        "mpt_refcount_raise/lower with a ghost net-change counter as trace partition: the counter is only changed while known non-zero, a kept increment returns "
                        "non-zero, every other exit returns the failure value with no net change (overflow is undone). UNREFIMPL: for every vtable whose addref slot raises a counter, "
                        "the unref slot's teardown calls are dominated by the test of mpt_refcount_lower() and unreachable from its 'references remain' edge. REFREPLACE: a value "
-                       "loaded from a reference slot that is then overwritten is only ever unref'ed; addref results are tested. UAF/NULLCONTRA on the anchor files.",
+                       "loaded from a reference slot that is then overwritten is only ever unref'ed; addref results are tested. UAF/NULLCONTRA on the anchor files. LINFINI (see C05): the last handle's release finalizes every element of the used part, so what the elements reference is released exactly then.",
         "not_decided": "'destroyed exactly when the last reference is dropped' over histories spanning several functions; C++ reference<T> beyond UAF/REFWRITE",
         "assumptions": [],
-        "technique": "who-may-write enumeration, interval analysis with ghost counters (trace partitioning), dominator/reachability check on vtable-resolved unref implementations",
+        "technique": "who-may-write enumeration, interval analysis with ghost counters (trace partitioning), dominator/reachability check on vtable-resolved unref implementations, relational abstract interpretation of the buffer release (finalizer loop coverage)",
         "level_text": "Decides the counter discipline: the only code that changes a count is raise/lower, their overflow/zero behaviour is proved on all paths, and every counted "
                       "object kind tears down only at zero (8 kinds); replacement sites release the old referent.",
         "level_note": "vtable slots are resolved from static initialisers; counted kinds are those whose addref implementation calls the raise primitive",
@@ -281,7 +281,7 @@ PROPS = {
         "explanation": "LINIDENT: relational abstract interpretation of identifier.c with INV(id): _val is an inline area of at least _max (and at least 4) bytes, _base a block of _len bytes while _len > _max: every copy stays inside the chosen area, INV holds at return, _base is not read after a write through _val ran over it (OVERLAY). IDENTOVERLAY: struct layout (_base directly follows _val[4]) is read from the record; trace partitioning on 'content possibly longer than 4 bytes was written "
                        "at X->_val': no read of X->_base in such a state until _base is assigned; every read of _base that follows the pointer is under the discriminant "
                        "X->_len > X->_max (conditional-operator arm or dominating branch). NARROW: interval of every value stored to identifier._len (u16) / _max (u8) lies in "
-                       "the field range (null-test partitions + copy relations x = y + c). ALLOCPOLARITY, NULLCONTRA (incl. NULL handed to memcpy/strlen), UAF, OBJSIZE on the anchor files.",
+                       "the field range (null-test partitions + copy relations x = y + c). ALLOCPOLARITY, NULLCONTRA (incl. NULL handed to memcpy/strlen), UAF, OBJSIZE on the anchor files. EXTLONG: a block a function allocates and installs as `_base` goes with `_len > _max` at return.",
         "not_decided": "read-back equality and comparison results per length; leak freedom on every path",
         "assumptions": [],
         "technique": "relational abstract interpretation (identifier storage); layout facts from the record + typestate (overlay) with trace partitioning + dominator check of the storage discriminant + interval analysis of narrow stores",
@@ -304,10 +304,10 @@ PROPS = {
                        "range offset applied once. DEADFINI: where a function gives 'bound == 0' a meaning of its own, the used length of the loop's buffer is not changed in that "
                        "path class (trace partition on bound == 0). DETACHCOPY: detach implementations copy a still-shared source through mpt_buffer_set (element copy), raw "
                        "memcpy only on the relocating path. USEDNOTSIZE: element counts come from _used. BUFMIX: mutators get lengths of their own buffer. UAF and ALLOCPOLARITY "
-                       "(init callbacks) on the anchor files.",
+                       "(init callbacks) on the anchor files. LINFINI: relational analysis of the array functions that call an element finalizer: FINIIN (what is handed to `fini` is a complete element of the used part) and FINICOVER (a function that frees the buffer leaves its finalizer loop with less than one element of the used part left). LINIDENT (see C16) is run here too because identifiers are managed elements: EXTLONG (a block installed as `_base` goes with `_len > _max`, else the copy reads as inline and the block is never freed).",
         "not_decided": "exact-once along arbitrary histories with failing constructors (needs a live-set); SHRINKFINI for arbitrary assignments lowering _used (only the bound==0 form is decided)",
         "assumptions": [],
-        "technique": "static table check + loop shape analysis (element address normal form) + trace-partitioned interval analysis + vtable-resolved dominator checks",
+        "technique": "static table check + loop shape analysis (element address normal form) + trace-partitioned interval analysis + vtable-resolved dominator checks + relational abstract interpretation of the finalizer loops and of the identifier functions",
         "level_text": "Pairing clauses of 'finalised exactly once': what is constructed has a destructor of the right size, destructor loops address exactly the element range, and "
                       "the one place where a length parameter switches meaning cannot drop elements unfinalised.",
         "level_note": "destructor-only traits of non-copyable C++ unique arrays are accepted (noted in evidence)",
@@ -331,7 +331,7 @@ PROPS = {
     "C10": {
         "explanation": "LINPATH as for C08 (path_set, path_valid, path_data, path_fini, addchar/delchar, invalidate; add/del/last/next are excluded by name: their indexing is justified by lengths stored in the text). NARROW: every store to path.first (u8) in the anchor files has a value interval inside the field (the 0 = 'search separator' escape counts). USEDNOTSIZE / "
                        "BUFMIX on the config item arrays. CONVDEST on mpt_config_get/convert callers. REFREPLACE in mpt_meta_set. NULLCONTRA, UAF, OBJSIZE on the anchor files. "
-                       "(COWGUARD/STALE on the path_* buffer helpers is part of the C04 check; the config item arrays are unique, never shared, and out of its scope.)",
+                       "(COWGUARD/STALE on the path_* buffer helpers is part of the C04 check; the config item arrays are unique, never shared, and out of its scope.) SETBEFOREUSE: members of a local path set from the caller's separator/assign parameters are set before the path is handed to a callee that reads them (mpt_path_set).",
         "not_decided": "map semantics over assign/remove/query histories; longest-prefix lookup results",
         "assumptions": [],
         "technique": "relational abstract interpretation (path primitives); interval analysis of narrow stores with null-test partitions; table and typestate rules shared with C04/C05/C15",
@@ -355,7 +355,7 @@ PROPS = {
                        "input callback is invoked by exactly the three character readers and no stage replaces the caller's input source, i.e. each character is obtained once and "
                        "there is no push-back path. ERRFX on mpt_parse_node: no store to the target root on a path that returns an error (the temporary tree is merged only after "
                        "err >= 0). CTYPEARG: every <ctype.h> table index lies in [-128,255] (interprocedural return summaries of the readers). NARROW on path.first. "
-                       "UAF/NULLCONTRA/OBJSIZE/BOUNDSTALE on the anchor files.",
+                       "UAF/NULLCONTRA/OBJSIZE/BOUNDSTALE on the anchor files. LOCALFINI: the path object the parse loop keeps handing to the format reader and the handler is released (mpt_path_fini) on every return reachable from those calls.",
         "not_decided": "absence of every invalid access for hostile input; well-nestedness of the emitted event sequence; leak freedom on all error paths",
         "assumptions": ["parser_input.getc callbacks follow the fgetc() contract: result <= 255 (negative or 0 ends the input)"],
         "technique": "relational abstract interpretation (path primitives); syntactic loop variants + who-may-call check on the input callback + trace-partitioned effect-before-refusal analysis + interval analysis with call summaries",
@@ -400,10 +400,10 @@ PROPS = {
         "explanation": "FINIALL: the teardown loops leave only on the index bound. FORMATARGS: literal log formats get one argument per conversion of the right class. FINALISER: typestate per handler slot (records holding a two-argument function pointer `cmd` next to `arg`), ghost facts notified/empty/fresh carried as trace "
                        "partitions: every store to a slot's handler in the dispatcher files happens after handler(arg, NULL) ran on that path, after a test showed the slot empty, "
                        "on a slot just obtained from mpt_command_empty()/a fresh insert, or in an initialiser; mpt_command_find() returns occupied slots only (an emptied slot can "
-                       "never be invoked); mpt_command_clear() and the traits finaliser notify before dropping slots. IDWIDTH (shared with C12) bounds reserved request ids.",
+                       "never be invoked); mpt_command_clear() and the traits finaliser notify before dropping slots. IDWIDTH (shared with C12) bounds reserved request ids. USEDNOTSIZE: element counts of the command table come from `_used`, never from the capacity. DEFAULTSET: every way through the branch taken on the handler's Default flag stores the dispatcher's default id before returning.",
         "not_decided": "delivery to exactly the registered handler over histories, default-event bookkeeping, uniqueness of reserved ids beyond the width table",
         "assumptions": [],
-        "technique": "CFG typestate with trace partitioning over all handler-slot stores + dominator check of the lookup",
+        "technique": "CFG typestate with trace partitioning over all handler-slot stores + dominator check of the lookup + must-pass-through (reachability) check of the default-id bookkeeping",
         "level_text": "Decides the end-of-life clause ('every handler ever registered receives exactly one end-of-life notification before its slot is reused and is never looked up "
                       "afterwards') for every store in the dispatcher sources, on all paths.",
         "level_note": "one-shot reply handlers in the stream/connection wait queues (invoked with the reply, then cleared) are outside the anchored files and reported as unattributed",
@@ -424,7 +424,7 @@ PROPS = {
                        "(negative) and last-element (0); reset() (and same-file callees) assigns every field advance() changes; a clone() that copies fields itself copies every field "
                        "value()/advance() read. STRSCAN: loop conditions that read the character under an advancing char pointer are false at NUL (abstract evaluation of the "
                        "condition with *p = 0). OUTPARAM: at every read of a local result parameter the callee's result, restricted to states where the result variable still "
-                       "holds it (trace partition), excludes the callee's unwritten return class (call-site specialised summaries). ERRPROP on mpt_iterator_consume.",
+                       "holds it (trace partition), excludes the callee's unwritten return class (call-site specialised summaries). ERRPROP on mpt_iterator_consume. ITERPROTO also demands that every way to `return 0` in advance() passes a store into the iterator object (the end of the sequence is recorded).",
         "not_decided": "visited values, closed forms, replay equality of the generated numbers",
         "assumptions": [],
         "technique": "vtable resolution from static initialisers + per-slot field read/write sets + interval analysis (query mode, out-parameter summaries) + abstract evaluation at NUL",
